@@ -1,4 +1,4 @@
-import IdModel.Meta.InvMap
+import IdModel.Meta.Total
 /-!
 # C14 — IOTA state-metadata packing round-trips and rewrites only self-references
 
@@ -280,10 +280,13 @@ theorem unpack_rebase (isIota : Nat → Bool) (P t : Nat) (d d1 : IDoc) (hp : Pa
       · exact absurd hy h1
       · simp [h1, hy]
   have hid : dp.id = P := by simp [dp, IDoc.mapP, g1]
-  unfold intoIota
+  unfold intoIota intoIotaG
   simp only
   rw [dataTryMap_pure _ _ _ _ g2 dp hwp hi2 (hstrict _ (Or.inl hid)) ?_ (fun _ _ => rfl) (fun _ _ => rfl)]
   · simp only
+    have hsz : (Gen.C14.tryMapChecksSizes && (dp.mapP g2).sizes != dp.sizes) = false := by
+      simp [IDoc.sizes, IDoc.mapP]
+    rw [if_neg (by rw [hsz]; simp)]
     have hgate : Meta.gate (dp.mapP g2) = some (dp.mapP g2) := by
       unfold Meta.gate
       rw [if_pos (inv_check _ (inv_mapP g2 dp hwp hi2))]
@@ -328,7 +331,7 @@ theorem rebase_points (s t x : Nat) : (if x = s then t else x) = (if x = s then 
 /-- an id that is neither the placeholder nor an IOTA DID is refused when unpacking -/
 theorem unpack_rejects_foreign_id (isIota : Nat → Bool) (P t : Nat) (d : IDoc) (h1 : d.id ≠ P)
     (h2 : isIota d.id = false) : intoIota isIota P t d = .error .notIota := by
-  unfold intoIota
+  unfold intoIota intoIotaG
   simp only [dataTryMap, h1, ↓reduceIte, Gen.C14.idAndControllerChecked, h2, Bool.not_false, Bool.and_self]
 
 /-! ## end to end, over an arbitrary JSON codec -/
@@ -405,10 +408,116 @@ The collections are rebuilt with `collect::<OrderedSet>`, which silently keeps t
 def clashDoc : IDoc :=
   ⟨0, none, [⟨⟨0, 0, some 1⟩, 0, 11⟩, ⟨⟨1, 0, some 1⟩, 1, 12⟩], [], [], [], [], [], [], false, 0⟩
 
-/-- unpacked for DID 1, both methods get the id `1#1` and the second is dropped without an error -/
-theorem rebase_onto_mentioned_did_drops_an_entry :
-    (toPlaceholder 99 clashDoc).map (intoIota (fun _ => true) 99 1) =
+/-- before `CoreDocument::try_map` compared collection sizes: unpacked for DID 1, both methods get the id `1#1`
+and the second was dropped without an error -/
+theorem rebase_onto_mentioned_did_dropped_an_entry :
+    (toPlaceholder 99 clashDoc).map (intoIotaG false (fun _ => true) 99 1) =
       some (.ok ⟨1, none, [⟨⟨1, 0, some 1⟩, 1, 11⟩], [], [], [], [], [], [], false, 0⟩) := by decide
+
+/-- now it is refused -/
+theorem rebase_onto_mentioned_did_is_refused :
+    (toPlaceholder 99 clashDoc).map (intoIota (fun _ => true) 99 1) = some (.error .gate) := by decide
+
+/-- **any target DID whatsoever**: unpacking what was packed either fails or yields the document with every
+self-reference rewritten to the target, no entry lost and nothing else changed (a controller *set* is
+de-duplicated, as sets are) — it is never silently something else -/
+theorem unpack_any_target (isIota : Nat → Bool) (P t : Nat) (d d1 : IDoc) (hp : Packable isIota P d)
+    (hpack : toPlaceholder P d = some d1) :
+    (∃ e, intoIota isIota P t d1 = .error e) ∨
+    intoIota isIota P t d1 = .ok (({ d with addrs := false } : IDoc).mapC (fun x => if x = d.id then t else x)) := by
+  rw [pack_doc isIota P d hp] at hpack
+  injection hpack with hpack
+  subst hpack
+  let g1 : Nat → Nat := fun x => if x = d.id then P else x
+  let g2 : Nat → Nat := fun x => if x = P then t else x
+  have hi1 : InjOn g1 d.dids := by
+    intro x hx y hy hxy
+    simp only [g1] at hxy
+    by_cases h1 : x = d.id <;> by_cases h2 : y = d.id
+    · rw [h1, h2]
+    · rw [if_pos h1, if_neg h2] at hxy; exact absurd (hxy ▸ hy) hp.noP
+    · rw [if_neg h1, if_pos h2] at hxy; exact absurd (hxy ▸ hx) hp.noP
+    · rw [if_neg h1, if_neg h2] at hxy; exact hxy
+  have hcomp : ∀ x ∈ d.dids, g2 (g1 x) = if x = d.id then t else x := by
+    intro x hx
+    simp only [g1, g2]
+    by_cases h1 : x = d.id
+    · simp [h1]
+    · have : x ≠ P := fun e => hp.noP (e ▸ hx)
+      simp [h1, this]
+  let dp : IDoc := { d.mapP g1 with addrs := false }
+  have hstrict : ∀ y, (y = P ∨ isIota y = true) →
+      (fun x => if x = P then some t else if (Gen.C14.idAndControllerChecked && !isIota x) = true then none else some x) y
+        = some (g2 y) := by
+    intro y hy
+    simp only [g2]
+    by_cases h1 : y = P
+    · simp [h1]
+    · rcases hy with hy | hy
+      · exact absurd hy h1
+      · simp [h1, hy]
+  have hid : dp.id = P := by simp [dp, IDoc.mapP, g1]
+  have hctl : ∀ y ∈ ctlDids dp.controller,
+      (fun x => if x = P then some t else if (Gen.C14.idAndControllerChecked && !isIota x) = true then none else some x) y
+        = some (g2 y) := by
+    intro y hy
+    apply hstrict
+    have : y ∈ (ctlDids d.controller).map g1 := by
+      have := ctlDids_mapP g1 d
+      rw [show dp.controller = (d.mapP g1).controller from rfl, this] at hy
+      exact hy
+    obtain ⟨x, hx, rfl⟩ := List.mem_map.1 this
+    simp only [g1]
+    by_cases h1 : x = d.id
+    · left; simp [h1]
+    · right; simp [h1, hp.ctlIota x hx]
+  unfold intoIota intoIotaG
+  simp only
+  rw [dataTryMap_total _ _ _ _ g2 dp (hstrict _ (Or.inl hid)) hctl (fun _ _ => rfl) (fun _ _ => rfl)]
+  simp only [Gen.C14.tryMapChecksSizes, Bool.true_and]
+  by_cases hs : (dp.mapD g2).sizes = dp.sizes
+  · have hne : ((dp.mapD g2).sizes != dp.sizes) = false := by simp [hs]
+    rw [hne]
+    simp only [Bool.false_eq_true, ↓reduceIte]
+    rw [mapD_eq_of_sizes g2 dp hs]
+    cases hg : Meta.gate (dp.mapC g2) with
+    | none => left; exact ⟨_, rfl⟩
+    | some x =>
+      right
+      unfold Meta.gate at hg
+      split at hg
+      · injection hg with hg
+        subst hg
+        simp only
+        congr 1
+        -- dp.mapC g2 = ({d with addrs := false}).mapC (g2 ∘ g1) = … g
+        have e1 : dp = ({ d with addrs := false } : IDoc).mapP g1 := rfl
+        unfold IDoc.mapC
+        rw [e1, mapP_comp]
+        have hc : (({ d with addrs := false } : IDoc).mapP g1).controller.map (oosMapC g2)
+            = d.controller.map (oosMapC (g2 ∘ g1)) := by
+          show (d.controller.map (oosMapP g1)).map (oosMapC g2) = _
+          rw [Option.map_map]
+          cases hcc : d.controller with
+          | none => rfl
+          | some c =>
+            simp only [Option.map_some, Function.comp_apply, Option.some.injEq]
+            exact oosMapC_comp_inj g1 g2 c (hp.wf.ctl c hcc)
+              (fun x hx y hy => hi1 x (mem_dids_ctl d x (by rw [hcc]; exact hx)) y (mem_dids_ctl d y (by rw [hcc]; exact hy)))
+        rw [hc]
+        have hd : ({ d with addrs := false } : IDoc).dids = d.dids := rfl
+        rw [mapP_congr (g2 ∘ g1) (fun x => if x = d.id then t else x) _ (fun x hx => hcomp x (hd ▸ hx))]
+        have : d.controller.map (oosMapC (g2 ∘ g1)) = d.controller.map (oosMapC (fun x => if x = d.id then t else x)) := by
+          cases hcc : d.controller with
+          | none => rfl
+          | some c =>
+            simp only [Option.map_some, Option.some.injEq]
+            exact oosMapC_congr _ _ c (fun x hx => hcomp x (mem_dids_ctl d x (by rw [hcc]; exact hx)))
+        rw [this]
+      · cases hg
+  · have hne : ((dp.mapD g2).sizes != dp.sizes) = true := by simp [hs]
+    rw [hne]
+    left; exact ⟨_, rfl⟩
 
 /-! ## non-vacuity -/
 
